@@ -8,17 +8,22 @@ def tasks(tier):
     T = []
     # (a) "any split of a connection's byte stream": proved for ALL chunkings at the receiving end (engine A, as under C10/C09)
     T += [('vc.tasks', 'run_contract', ('contracts.asyncoro', a, 'contracts.asyncoro_native:framing', tier)) for a in ('data_received', 'receive', 'send')]
+    # shutdown terminates whatever the order in which the peers' connections are lost: structural obligations on Runtime.shutdown (as under C35)
+    T += [('contracts.runtime_barrier', 'shutdown_structure', ())]
     # (b) delivery schedules: same inputs and same protocol randomness under random per-connection-FIFO schedules
     cfgs = [(2, 0), (3, 1), (4, 1), (5, 2), (7, 3)] if tier == 'quick' else mpinst.CONFIGS_THOROUGH
-    progs = [('int_ops', 6), ('fxp_ops', 8), ('bit_ops', 8), ('convert_ops', 8), ('field_ops', 8), ('seclist_ops', 8), ('random_ops', 8)]
+    progs = [('pipeline', 8), ('int_ops', 6), ('fxp_ops', 8), ('bit_ops', 8), ('convert_ops', 8), ('field_ops', 8), ('seclist_ops', 8), ('random_ops', 8)]
     nsched = 8 if tier == 'quick' else 40
     for m, t in cfgs:
         if m == 1: continue
         for np_ in (False, True):
             for pn, l in progs:
+                if tier == 'quick' and m >= 6 and pn in ('pipeline', 'seclist_ops'): continue          # > 60 s per task with 7 parties: thorough tier only
                 if pn == 'random_ops' and np_: continue          # without PRSS the random VALUES depend on the order in which parties draw local randomness: legitimately schedule dependent
                 for seed in ((1,) if tier == 'quick' else (1, 2, 3)):
-                    T.append(('sx.mpinst3', 'schedule_independence', (m, t, np_, pn, l, 30, seed, nsched if m <= 5 else max(4, nsched // 4))))
+                    ns = nsched if m <= 5 else max(4, nsched // 4)
+                    if pn == 'pipeline' and tier == 'quick': ns = 4 if m <= 5 else 2          # the heaviest program (50 000 messages per run with 5 parties)
+                    T.append(('sx.mpinst3', 'schedule_independence', (m, t, np_, pn, l, 30, seed, ns)))
     if tier != 'quick':
         for m, t in ((3, 1), (4, 1)):
             T.append(('sx.mpinst3', 'schedule_independence', (m, t, False, 'gcd_ops', 12, 30, 1, 6)))
@@ -32,7 +37,7 @@ def run(tier, seed):
                   explanation='partial. (a) Byte-stream splits: engine A proves for ALL chunkings that MessageExchanger.data_received hands over exactly the complete frames of the '
                   'sender\'s stream, each once, with its own label, and that receive returns the payload buffered under its label or a future resolved by it (P; same contracts as C10/C09). '
                   '(b) Delivery schedules (bounded): m real runtimes on one event loop with a ghost network whose messages wait in per-connection FIFO queues and are delivered one at '
-                  'a time from a randomly chosen connection between steps of the loop (seeded schedules); seven composite programs with fixed inputs and fixed protocol randomness are '
+                  'a time from a randomly chosen connection between steps of the loop (seeded schedules); eight composite programs (among them a pipelined one that starts operations on operands not yet arrived, awaits something unrelated and goes on) with fixed inputs and fixed protocol randomness are '
                   'run under immediate delivery and under 8 (thorough 40) random schedules per configuration: under every schedule all parties complete, obtain exactly the outputs '
                   'of the baseline schedule, no label is used twice, and the network is balanced at the end (every message received, every receive matched). '
                   'Liveness for ALL schedules and programs is not decided: completion is observed for the explored schedules only.',
